@@ -1,9 +1,12 @@
 (* C13 — reachability, reversal, subgraph extraction and clone are exact and
    non-destructive (graph.py, class DiGraph).  Theorems only; proofs are in
    Proofs/GraphP.v.  The model functions are pure (they return new values), which is the
-   model-level form of "none of these change G"; absence of aliasing in the Python
-   objects is monitored by the correspondence check. *)
-From PMC Require Import Spec.Lemmas Proofs.GraphP.
+   model-level form of "none of these change G".  INDEPENDENCE (of a clone, and of every
+   graph the operations return) is not expressible on pure values: it is stated at the end on
+   a heap model (Model/GraphHeap.v: successor sets are mutable cells, a DiGraph object maps
+   nodes to cells, the constructor allocates fresh cells) and additionally monitored on the
+   Python objects by the correspondence check. *)
+From PMC Require Import Spec.Lemmas Proofs.GraphP Model.GraphHeap Proofs.GraphHeapP.
 
 (* get_reachable_set_from(X) = X plus everything reachable from X; foreign start node -> RuntimeError *)
 Theorem C13_reach : forall g X, wf_graph g -> incl X (nodes g) ->
@@ -56,3 +59,48 @@ Example C13_example :
   reach_r g [1] = Ok [1; 2] /\ edges (reversed g) = [(0, 3); (1, 0); (1, 2); (2, 1)] /\
   subgraph g [0; 1; 3] = [(0, [1]); (1, []); (3, [0])].
 Proof. vm_compute. repeat split. Qed.
+
+(* ---------------------------------------------------------------------------------------- *)
+(* independence, on the heap model                                                            *)
+(* ---------------------------------------------------------------------------------------- *)
+(* clone(): equal value, cells that did not exist before (so none is shared with G or with
+   anything else), G itself untouched *)
+Theorem C13_clone_independent : forall h g h' o, gvalid h g -> clone_gh h g = (h', o) ->
+  gframe h h' /\ gabs h' o = clone (gabs h g) /\
+  (forall l, In l (glocs o) -> ~ gallocated h l) /\
+  (forall l, In l (glocs o) -> ~ In l (glocs g)) /\
+  gabs h' g = gabs h g.
+Proof. exact clone_gh_spec. Qed.
+Print Assumptions C13_clone_independent.
+
+(* whatever the caller writes IN PLACE into the successor sets of a clone / reversed graph /
+   subgraph, G keeps its value; whatever is written into G's sets, the result keeps its value *)
+Theorem C13_results_independent : forall h g h' o, gvalid h g -> gop_result h g h' o ->
+  (forall ws, (forall w, In w ws -> In (fst w) (glocs o)) -> gabs (gwrites h' ws) g = gabs h g) /\
+  (forall ws, (forall w, In w ws -> In (fst w) (glocs g)) -> gabs (gwrites h' ws) o = gabs h' o).
+Proof. exact result_independent. Qed.
+Print Assumptions C13_results_independent.
+
+(* sessions: any sequence of clone / reverse / subgraph / reachability calls on G interleaved
+   with the caller EDITING the graphs it got back (add_edge on the i-th result): every call
+   returns what the pure function returns on the value G had at the start, and G still has
+   that value at the end *)
+Theorem C13_session : forall h0 g ss, gvalid h0 g ->
+  snd (run_gsession h0 g ss) = spec_gsession (gabs h0 g) ss /\
+  gabs (fst (run_gsession h0 g ss)) g = gabs h0 g.
+Proof. exact gsession_correct. Qed.
+Print Assumptions C13_session.
+
+(* non-vacuity: a clone that shares the successor sets (`nDG._next = dict(self._next)`) and a
+   reversal that hands out a memoised object both violate it *)
+Theorem C13_shallow_clone_refuted :
+  ~ (forall h g h' o s d, gvalid h g -> clone_shallow_gh h g = (h', o) ->
+       gabs (add_edge_gh h' o s d) g = gabs h g).
+Proof. exact GExamples.shallow_clone_refutes_independence. Qed.
+Print Assumptions C13_shallow_clone_refuted.
+
+Theorem C13_cached_reverse_refuted :
+  snd (run_gsession_cached GExamples.h0 GExamples.g0 GExamples.ss0)
+    <> spec_gsession (gabs GExamples.h0 GExamples.g0) GExamples.ss0.
+Proof. exact (proj1 GExamples.cached_session_wrong). Qed.
+Print Assumptions C13_cached_reverse_refuted.
